@@ -42,6 +42,31 @@ def build(ctx, rounds):
     return cases
 
 
+def zero_led_rsa_signatures(ctx):
+    """RSA signatures that begin with a zero octet (corpus/rsa_zero_led_signatures.json, made by the reference signer with the
+    corpus key): the token as signed verifies; with the leading zero octet(s) of the signature removed - the same integer,
+    one octet short of the modulus length - it does not (RFC 8017 sections 8.1.2 / 8.2.2 step 1), nor with a zero octet added
+    in front or the zero octet moved to the end."""
+    import json
+    from pathlib import Path
+    data = json.loads((Path(__file__).resolve().parent.parent.parent / "corpus" / "rsa_zero_led_signatures.json").read_text())
+    pub = J.make_key("rsa2048", private=False)
+    out = []
+    for alg, d in sorted(data.items()):
+        h, p, s = d["token"].encode().split(b".")
+        raw = J.b64u_dec(s)
+        meta = {"alg": alg, "key": "rsa2048", "payload": d["payload"].encode(), "header": {"alg": alg}}
+        out.append(J.VCase("compact", d["token"].encode(), pub, note="valid-zero-led-signature", meta=meta))
+        for note, sig in (("strip-leading-zero-octets-of-signature", raw.lstrip(b"\x00")), ("zero-octet-added-in-front-of-signature", b"\x00" + raw),
+                          ("leading-zero-octet-moved-to-the-end", raw[1:] + b"\x00")):
+            tok = h + b"." + p + b"." + J.b64u(sig)
+            out.append(J.VCase("compact", tok, pub, note=note, meta=meta))
+            flat = {"protected": h.decode(), "payload": p.decode(), "signature": J.b64u(sig).decode()}
+            out.append(J.VCase("flat", flat, pub, note=note, meta=meta))
+            out.append(J.VCase("general", {"payload": p.decode(), "signatures": [{"protected": h.decode(), "signature": J.b64u(sig).decode()}]}, pub, note=note, meta=meta))
+    return out
+
+
 def unprotected_only(ctx):
     """Flattened JWS whose only header is the unprotected one (nothing but the payload is signed), and the
     RFC 7797 switch injected into that unprotected header."""
@@ -107,7 +132,7 @@ def multi_signer(ctx):
 
 
 def run(ctx):
-    cases = build(ctx, 1 if ctx.tier == "quick" else 6) + unprotected_only(ctx) + multi_signer(ctx)
+    cases = build(ctx, 1 if ctx.tier == "quick" else 6) + unprotected_only(ctx) + multi_signer(ctx) + zero_led_rsa_signatures(ctx)
     J.run_verify_cases(ctx, "jws-verify", cases, check_c01=True, prop="C01")
     if ctx.tier == "thorough":
         # every bit of every decoded segment for one token per algorithm family
